@@ -32,8 +32,10 @@ def gen_table(rng):
     # above 256 - beyond the widths unit tests and most harnesses ever see (and beyond CPython's shared small ints)
     big = rng.random() < 0.03
 
+    tiny = rng.random() < 0.15      # tables of one- and two-character cells: a column that loses a single cell loses content
+
     def text_cell(row_key, col, allow_nl=True):
-        lens = [0, 2, 6, 14, 30]
+        lens = [0, 1, 1, 2] if tiny else [0, 2, 6, 14, 30]
         if big and row_key not in ("header", "footer") and col < 2:
             lens = [280, 400, 400, 650]
         s = pool.string(rng.choice(lens), space=0.18, newline=0.06 if allow_nl and not big else 0.0)
@@ -75,7 +77,7 @@ def gen_table(rng):
         spec["decor"] = SP._decor("table", rng)      # header / footer / border / title styles, title justification
     spec["title"] = rng.choice([None, None, "TTT", "TITLE TITLE TITLE"])
     spec["caption"] = rng.choice([None, None, "CCC"])
-    if rng.random() < 0.3:
+    if rng.random() < (0.6 if tiny else 0.3):
         # a table min_width within a few cells of the table's natural width: the boundary of the "pad up to
         # min_width" branch of the width solver
         _, pr_, _, pl_ = SP.unpack_pad(spec["padding"])
@@ -290,7 +292,7 @@ def wl_tables(ctx, rng, case_no):
 
 
 def workloads(tier):
-    return [WL("tables", wl_tables, 250000 if tier == "thorough" else 4000)]
+    return [WL("tables", wl_tables, 250000 if tier == "thorough" else 6000)]
 
 
 LEVEL_TEXT = ("Renders freshly built random tables with self-identifying (unique) cell characters through the real "
